@@ -1773,7 +1773,7 @@ size_t dataLength, double absErrBound, double relBoundRatio, double pwrErrRatio,
 
         convertTDPStoFlatBytes_double(tdps, newByteData, outSize);
 
-        if(*outSize>3 + MetaDataByteLength + exe_params->SZ_SIZE_TYPE + 1 + sizeof(double)*dataLength)
+        if(*outSize>3 + MetaDataByteLength_double + exe_params->SZ_SIZE_TYPE + 1 + sizeof(double)*dataLength)
                 SZ_compress_args_double_StoreOriData(oriData, dataLength, newByteData, outSize);
 
         free_TightDataPointStorageD(tdps);
@@ -1835,7 +1835,7 @@ void SZ_compress_args_double_NoCkRngeNoGzip_1D_pwr_pre_log(unsigned char** newBy
 	free(signs);
 
     convertTDPStoFlatBytes_double(tdps, newByteData, outSize);
-    if(*outSize>3 + MetaDataByteLength + exe_params->SZ_SIZE_TYPE + 1 + sizeof(double)*dataLength)
+    if(*outSize>3 + MetaDataByteLength_double + exe_params->SZ_SIZE_TYPE + 1 + sizeof(double)*dataLength)
             SZ_compress_args_double_StoreOriData(oriData, dataLength, newByteData, outSize);
 
     free_TightDataPointStorageD(tdps);
@@ -1897,7 +1897,7 @@ void SZ_compress_args_double_NoCkRngeNoGzip_2D_pwr_pre_log(unsigned char** newBy
 	free(signs);
 
     convertTDPStoFlatBytes_double(tdps, newByteData, outSize);
-    if(*outSize>3 + MetaDataByteLength + exe_params->SZ_SIZE_TYPE + 1 + sizeof(double)*dataLength)
+    if(*outSize>3 + MetaDataByteLength_double + exe_params->SZ_SIZE_TYPE + 1 + sizeof(double)*dataLength)
             SZ_compress_args_double_StoreOriData(oriData, dataLength, newByteData, outSize);
 
     free_TightDataPointStorageD(tdps);
@@ -1958,7 +1958,7 @@ void SZ_compress_args_double_NoCkRngeNoGzip_3D_pwr_pre_log(unsigned char** newBy
 	free(signs);
 
     convertTDPStoFlatBytes_double(tdps, newByteData, outSize);
-    if(*outSize>3 + MetaDataByteLength + exe_params->SZ_SIZE_TYPE + 1 + sizeof(double)*dataLength)
+    if(*outSize>3 + MetaDataByteLength_double + exe_params->SZ_SIZE_TYPE + 1 + sizeof(double)*dataLength)
             SZ_compress_args_double_StoreOriData(oriData, dataLength, newByteData, outSize);
 
     free_TightDataPointStorageD(tdps);
@@ -1991,7 +1991,7 @@ void SZ_compress_args_double_NoCkRngeNoGzip_1D_pwr_pre_log_MSST19(unsigned char*
 	free(signs);
 
 	convertTDPStoFlatBytes_double(tdps, newByteData, outSize);
-	if(*outSize>3 + MetaDataByteLength + exe_params->SZ_SIZE_TYPE + 1 + sizeof(double)*dataLength)
+	if(*outSize>3 + MetaDataByteLength_double + exe_params->SZ_SIZE_TYPE + 1 + sizeof(double)*dataLength)
 		SZ_compress_args_double_StoreOriData(oriData, dataLength, newByteData, outSize);
 
 	free_TightDataPointStorageD(tdps);
@@ -2028,7 +2028,7 @@ void SZ_compress_args_double_NoCkRngeNoGzip_2D_pwr_pre_log_MSST19(unsigned char*
 	free(signs);
 
     convertTDPStoFlatBytes_double(tdps, newByteData, outSize);
-    if(*outSize>3 + MetaDataByteLength + exe_params->SZ_SIZE_TYPE + 1 + sizeof(double)*dataLength)
+    if(*outSize>3 + MetaDataByteLength_double + exe_params->SZ_SIZE_TYPE + 1 + sizeof(double)*dataLength)
             SZ_compress_args_double_StoreOriData(oriData, dataLength, newByteData, outSize);
 
     free_TightDataPointStorageD(tdps);
@@ -2065,7 +2065,7 @@ void SZ_compress_args_double_NoCkRngeNoGzip_3D_pwr_pre_log_MSST19(unsigned char*
 
 
 	convertTDPStoFlatBytes_double(tdps, newByteData, outSize);
-	if(*outSize>3 + MetaDataByteLength + exe_params->SZ_SIZE_TYPE + 1 + sizeof(double)*dataLength)
+	if(*outSize>3 + MetaDataByteLength_double + exe_params->SZ_SIZE_TYPE + 1 + sizeof(double)*dataLength)
 		SZ_compress_args_double_StoreOriData(oriData, dataLength, newByteData, outSize);
 
 	free_TightDataPointStorageD(tdps);
